@@ -5,11 +5,17 @@
      Num/Decimal.v  apd decimals at precision 34 as used by adt.numOp (dadd dsub dmul dquo dcmp ...)
      Num/IntDiv.v   intDivOp: div mod quo rem
      Num/NumLit.v   literal.ParseNum + NumInfo.decimal, byte level
-   Specification layer: dval : dec -> Q (the rational a decimal denotes), ival, and
-   Num/NumLitSpec.v (the value a literal denotes).  Notation: p10 e = 10^e in Q. *)
+   Specification layer:
+     Num/DVal.v           dval : dec -> Q, the rational a decimal denotes (p10 e = 10^e in Q)
+     Num/IntDivProofs.v   ival : dec -> Z, the integer an int-kinded decimal denotes
+     Num/NumLitGrammar.v  the literals of doc/ref/spec.md as a generative grammar (render : lit -> bytes)
+     Num/NumLitSpec.v     the value a scanned literal denotes exactly
+   (Related statements are grouped into one conjunction each: every Print Assumptions costs
+   about 0.6 s whatever the statement.) *)
 From Verif Require Import Base.Order Num.Decimal Num.IntDiv Num.Eval Num.NumLit Num.NumLitSpec
      Num.DVal Num.DigitsProofs Num.RoundProofs Num.ArithProofs Num.QuoProofs Num.DcmpProofs
-     Num.CmpProofs Num.IntDivProofs Num.NumLitProofs Num.Examples.
+     Num.CmpProofs Num.IntDivProofs Num.NumLitProofs Num.NumLitGrammar Num.LitProofs Num.LitValueProofs
+     Num.Examples.
 From Coq Require Import List NArith ZArith QArith Qabs.
 Import ListNotations.
 Local Open Scope Q_scope.
@@ -22,31 +28,20 @@ Theorem C06_digits_characterised : forall n,
 Proof. exact digits_spec. Qed.
 Print Assumptions C06_digits_characterised.
 
-(* Round to p digits: identity when the coefficient fits *)
-Theorem C06_round_identity_when_fits : forall p d, (digits (coeff d) <= p)%N -> round p d = d.
-Proof. exact round_small. Qed.
-Print Assumptions C06_round_identity_when_fits.
-
-Theorem C06_round_digits : forall p d, (1 <= p)%N -> (digits (coeff (round p d)) <= p)%N.
-Proof. exact round_digits. Qed.
-Print Assumptions C06_round_digits.
+(* Round to p digits: at most p digits; identity when the coefficient fits *)
+Theorem C06_round_digits_and_identity : forall p d,
+  ((1 <= p)%N -> (digits (coeff (round p d)) <= p)%N) /\ ((digits (coeff d) <= p)%N -> round p d = d).
+Proof. exact (fun p d => conj (round_digits p d) (round_small p d)). Qed.
+Print Assumptions C06_round_digits_and_identity.
 
 (* otherwise: within half a unit of the last kept digit, a multiple of that unit, ties away
    from zero - i.e. THE half-up rounding of the value *)
-Theorem C06_round_error : forall p d, (p < digits (coeff d))%N ->
-  2 * Qabs (dval (round p d) - dval d) <= ulp p d.
-Proof. exact round_error. Qed.
-Print Assumptions C06_round_error.
-
-Theorem C06_round_multiple_of_ulp : forall p d, (p < digits (coeff d))%N ->
-  exists k : Z, dval (round p d) == inject_Z k * ulp p d.
-Proof. exact round_multiple. Qed.
-Print Assumptions C06_round_multiple_of_ulp.
-
-Theorem C06_round_ties_away_from_zero : forall p d, (p < digits (coeff d))%N ->
-  2 * Qabs (dval (round p d) - dval d) == ulp p d -> Qabs (dval d) < Qabs (dval (round p d)).
-Proof. exact round_tie_away. Qed.
-Print Assumptions C06_round_ties_away_from_zero.
+Theorem C06_round_correct : forall p d, (p < digits (coeff d))%N ->
+  2 * Qabs (dval (round p d) - dval d) <= ulp p d /\
+  (exists k : Z, dval (round p d) == inject_Z k * ulp p d) /\
+  (2 * Qabs (dval (round p d) - dval d) == ulp p d -> Qabs (dval d) < Qabs (dval (round p d))).
+Proof. exact (fun p d H => conj (round_error p d H) (conj (round_multiple p d H) (round_tie_away p d H))). Qed.
+Print Assumptions C06_round_correct.
 
 (* the Inexact condition bit is exactly "the value changed" *)
 Theorem C06_round_inexact_flag : forall p d,
@@ -57,23 +52,15 @@ Print Assumptions C06_round_inexact_flag.
 (* ------------------------------------------------------------------ *)
 (* + - * : exact result, then Round at precision 34                    *)
 
-Theorem C06_add_exact_value : forall x y, dval (add_exact x y) == dval x + dval y.
-Proof. exact add_exact_val. Qed.
-Print Assumptions C06_add_exact_value.
+Theorem C06_exact_layer_values : forall x y,
+  dval (add_exact x y) == dval x + dval y /\ dval (sub_exact x y) == dval x - dval y /\
+  dval (mul_exact x y) == dval x * dval y /\ dval (dneg x) == - dval x.
+Proof.
+  exact (fun x y => conj (add_exact_val x y) (conj (sub_exact_val x y) (conj (mul_exact_val x y) (dneg_val x)))).
+Qed.
+Print Assumptions C06_exact_layer_values.
 
-Theorem C06_sub_exact_value : forall x y, dval (sub_exact x y) == dval x - dval y.
-Proof. exact sub_exact_val. Qed.
-Print Assumptions C06_sub_exact_value.
-
-Theorem C06_mul_exact_value : forall x y, dval (mul_exact x y) == dval x * dval y.
-Proof. exact mul_exact_val. Qed.
-Print Assumptions C06_mul_exact_value.
-
-Theorem C06_neg_value : forall x, dval (dneg x) == - dval x.
-Proof. exact dneg_val. Qed.
-Print Assumptions C06_neg_value.
-
-(* add: correctly rounded to 34 significant digits (when it does not fit) *)
+(* add (dadd = round34 o add_exact): correctly rounded to 34 significant digits *)
 Theorem C06_add_correctly_rounded : forall x y,
   (34 < digits (coeff (add_exact x y)))%N ->
   let u := ulp 34 (add_exact x y) in
@@ -83,85 +70,70 @@ Theorem C06_add_correctly_rounded : forall x y,
 Proof. exact (rop_correctly_rounded add_exact Qplus add_exact_val). Qed.
 Print Assumptions C06_add_correctly_rounded.
 
-Theorem C06_sub_correctly_rounded : forall x y,
-  (34 < digits (coeff (sub_exact x y)))%N ->
-  let u := ulp 34 (sub_exact x y) in
-  2 * Qabs (dval (dsub x y) - (dval x - dval y)) <= u /\
-  (exists k : Z, dval (dsub x y) == inject_Z k * u) /\
-  (2 * Qabs (dval (dsub x y) - (dval x - dval y)) == u -> Qabs (dval x - dval y) < Qabs (dval (dsub x y))).
-Proof. exact (rop_correctly_rounded sub_exact Qminus sub_exact_val). Qed.
-Print Assumptions C06_sub_correctly_rounded.
-
-Theorem C06_mul_correctly_rounded : forall x y,
-  (34 < digits (coeff (mul_exact x y)))%N ->
-  let u := ulp 34 (mul_exact x y) in
-  2 * Qabs (dval (dmul x y) - (dval x * dval y)) <= u /\
-  (exists k : Z, dval (dmul x y) == inject_Z k * u) /\
-  (2 * Qabs (dval (dmul x y) - (dval x * dval y)) == u -> Qabs (dval x * dval y) < Qabs (dval (dmul x y))).
-Proof. exact (rop_correctly_rounded mul_exact Qmult mul_exact_val). Qed.
-Print Assumptions C06_mul_correctly_rounded.
+Theorem C06_sub_mul_correctly_rounded : forall x y,
+  ((34 < digits (coeff (sub_exact x y)))%N ->
+   let u := ulp 34 (sub_exact x y) in
+   2 * Qabs (dval (dsub x y) - (dval x - dval y)) <= u /\
+   (exists k : Z, dval (dsub x y) == inject_Z k * u) /\
+   (2 * Qabs (dval (dsub x y) - (dval x - dval y)) == u -> Qabs (dval x - dval y) < Qabs (dval (dsub x y)))) /\
+  ((34 < digits (coeff (mul_exact x y)))%N ->
+   let u := ulp 34 (mul_exact x y) in
+   2 * Qabs (dval (dmul x y) - (dval x * dval y)) <= u /\
+   (exists k : Z, dval (dmul x y) == inject_Z k * u) /\
+   (2 * Qabs (dval (dmul x y) - (dval x * dval y)) == u -> Qabs (dval x * dval y) < Qabs (dval (dmul x y)))).
+Proof.
+  exact (fun x y => conj (rop_correctly_rounded sub_exact Qminus sub_exact_val x y)
+                         (rop_correctly_rounded mul_exact Qmult mul_exact_val x y)).
+Qed.
+Print Assumptions C06_sub_mul_correctly_rounded.
 
 (* representation-independent: relative error at most 5 * 10^-34, for all operands *)
-Theorem C06_add_relative_error : forall x y,
-  2 * Qabs (dval (dadd x y) - (dval x + dval y)) * p10 33 <= Qabs (dval x + dval y).
-Proof. exact (rop_relative_error add_exact Qplus add_exact_val). Qed.
-Print Assumptions C06_add_relative_error.
-
-Theorem C06_sub_relative_error : forall x y,
-  2 * Qabs (dval (dsub x y) - (dval x - dval y)) * p10 33 <= Qabs (dval x - dval y).
-Proof. exact (rop_relative_error sub_exact Qminus sub_exact_val). Qed.
-Print Assumptions C06_sub_relative_error.
-
-Theorem C06_mul_relative_error : forall x y,
+Theorem C06_add_sub_mul_relative_error : forall x y,
+  2 * Qabs (dval (dadd x y) - (dval x + dval y)) * p10 33 <= Qabs (dval x + dval y) /\
+  2 * Qabs (dval (dsub x y) - (dval x - dval y)) * p10 33 <= Qabs (dval x - dval y) /\
   2 * Qabs (dval (dmul x y) - (dval x * dval y)) * p10 33 <= Qabs (dval x * dval y).
-Proof. exact (rop_relative_error mul_exact Qmult mul_exact_val). Qed.
-Print Assumptions C06_mul_relative_error.
+Proof.
+  exact (fun x y => conj (rop_relative_error add_exact Qplus add_exact_val x y)
+                   (conj (rop_relative_error sub_exact Qminus sub_exact_val x y)
+                         (rop_relative_error mul_exact Qmult mul_exact_val x y))).
+Qed.
+Print Assumptions C06_add_sub_mul_relative_error.
 
 (* exact whenever the exact result has at most 34 digits *)
-Theorem C06_add_exact_when_fits : forall x y,
-  (digits (coeff (add_exact x y)) <= 34)%N -> dval (dadd x y) == dval x + dval y.
-Proof. exact (rop_exact_when_fits add_exact Qplus add_exact_val). Qed.
-Print Assumptions C06_add_exact_when_fits.
-
-Theorem C06_sub_exact_when_fits : forall x y,
-  (digits (coeff (sub_exact x y)) <= 34)%N -> dval (dsub x y) == dval x - dval y.
-Proof. exact (rop_exact_when_fits sub_exact Qminus sub_exact_val). Qed.
-Print Assumptions C06_sub_exact_when_fits.
-
-Theorem C06_mul_exact_when_fits : forall x y,
-  (digits (coeff (mul_exact x y)) <= 34)%N -> dval (dmul x y) == dval x * dval y.
-Proof. exact (rop_exact_when_fits mul_exact Qmult mul_exact_val). Qed.
-Print Assumptions C06_mul_exact_when_fits.
+Theorem C06_add_sub_mul_exact_when_fits : forall x y,
+  ((digits (coeff (add_exact x y)) <= 34)%N -> dval (dadd x y) == dval x + dval y) /\
+  ((digits (coeff (sub_exact x y)) <= 34)%N -> dval (dsub x y) == dval x - dval y) /\
+  ((digits (coeff (mul_exact x y)) <= 34)%N -> dval (dmul x y) == dval x * dval y).
+Proof.
+  exact (fun x y => conj (rop_exact_when_fits add_exact Qplus add_exact_val x y)
+                   (conj (rop_exact_when_fits sub_exact Qminus sub_exact_val x y)
+                         (rop_exact_when_fits mul_exact Qmult mul_exact_val x y))).
+Qed.
+Print Assumptions C06_add_sub_mul_exact_when_fits.
 
 (* and exactly then (the Inexact bit of the rounding step) *)
-Theorem C06_add_exact_iff : forall x y,
-  snd (round_flag 34 (add_exact x y)) = false <-> dval (dadd x y) == dval x + dval y.
-Proof. exact (rop_exact_iff add_exact Qplus add_exact_val). Qed.
-Print Assumptions C06_add_exact_iff.
-
-Theorem C06_mul_exact_iff : forall x y,
-  snd (round_flag 34 (mul_exact x y)) = false <-> dval (dmul x y) == dval x * dval y.
-Proof. exact (rop_exact_iff mul_exact Qmult mul_exact_val). Qed.
-Print Assumptions C06_mul_exact_iff.
+Theorem C06_add_sub_mul_exact_iff : forall x y,
+  (snd (round_flag 34 (add_exact x y)) = false <-> dval (dadd x y) == dval x + dval y) /\
+  (snd (round_flag 34 (sub_exact x y)) = false <-> dval (dsub x y) == dval x - dval y) /\
+  (snd (round_flag 34 (mul_exact x y)) = false <-> dval (dmul x y) == dval x * dval y).
+Proof.
+  exact (fun x y => conj (rop_exact_iff add_exact Qplus add_exact_val x y)
+                   (conj (rop_exact_iff sub_exact Qminus sub_exact_val x y)
+                         (rop_exact_iff mul_exact Qmult mul_exact_val x y))).
+Qed.
+Print Assumptions C06_add_sub_mul_exact_iff.
 
 (* integers below 10^34 in magnitude: exact, and still an integer representation *)
-Theorem C06_int_add_exact_when : forall x y,
-  exp x = 0%Z -> exp y = 0%Z -> (Z.abs (sc x + sc y) < 10 ^ 34)%Z ->
-  exp (dadd x y) = 0%Z /\ sc (dadd x y) = (sc x + sc y)%Z.
-Proof. exact int_add_exact_when. Qed.
-Print Assumptions C06_int_add_exact_when.
-
-Theorem C06_int_sub_exact_when : forall x y,
-  exp x = 0%Z -> exp y = 0%Z -> (Z.abs (sc x - sc y) < 10 ^ 34)%Z ->
-  exp (dsub x y) = 0%Z /\ sc (dsub x y) = (sc x - sc y)%Z.
-Proof. exact int_sub_exact_when. Qed.
-Print Assumptions C06_int_sub_exact_when.
-
-Theorem C06_int_mul_exact_when : forall x y,
-  exp x = 0%Z -> exp y = 0%Z -> (Z.abs (sc x * sc y) < 10 ^ 34)%Z ->
-  exp (dmul x y) = 0%Z /\ sc (dmul x y) = (sc x * sc y)%Z.
-Proof. exact int_mul_exact_when. Qed.
-Print Assumptions C06_int_mul_exact_when.
+Theorem C06_int_arith_exact_when : forall x y,
+  exp x = 0%Z -> exp y = 0%Z ->
+  ((Z.abs (sc x + sc y) < 10 ^ 34)%Z -> exp (dadd x y) = 0%Z /\ sc (dadd x y) = (sc x + sc y)%Z) /\
+  ((Z.abs (sc x - sc y) < 10 ^ 34)%Z -> exp (dsub x y) = 0%Z /\ sc (dsub x y) = (sc x - sc y)%Z) /\
+  ((Z.abs (sc x * sc y) < 10 ^ 34)%Z -> exp (dmul x y) = 0%Z /\ sc (dmul x y) = (sc x * sc y)%Z).
+Proof.
+  exact (fun x y ex ey => conj (int_add_exact_when x y ex ey)
+                         (conj (int_sub_exact_when x y ex ey) (int_mul_exact_when x y ex ey))).
+Qed.
+Print Assumptions C06_int_arith_exact_when.
 
 (* THE PROPERTY AS WORDED IS FALSE OF THE FAITHFUL MODEL (finding F1):
    two int operands whose int-kinded sum is not their sum (10^36 + 1) *)
@@ -177,37 +149,18 @@ Theorem C06_int_mul_exact_refuted :
 Proof. exact num_op_mul_refuted. Qed.
 Print Assumptions C06_int_mul_exact_refuted.
 
-Example C06_f1_witness_value :
-  num_op OpAdd (i_ (10 ^ 36)) (i_ 1) = Ok (mkNum KInt (mkDec false (10 ^ 33) 3)).
-Proof. exact ex_f1. Qed.
-Print Assumptions C06_f1_witness_value.
-
-Example C06_add_fits_example : num_op OpAdd (i_ (10 ^ 33)) (i_ 1) = Ok (i_ (10 ^ 33 + 1)).
-Proof. exact ex_add_fits. Qed.
-Print Assumptions C06_add_fits_example.
-
-Example C06_tie_and_rollover_examples :
-  dadd (mkDec false (10 ^ 34 + 5) 0) (mkDec false 0 0) = mkDec false (10 ^ 33 + 1) 1 /\
-  dmul (mkDec false (10 ^ 35 - 5) 0) (mkDec false 1 0) = mkDec false (10 ^ 33) 2.
-Proof. exact (conj ex_tie ex_rollover). Qed.
-Print Assumptions C06_tie_and_rollover_examples.
-
 (* ------------------------------------------------------------------ *)
 (* kinds and errors of numOp                                           *)
 
-Theorem C06_result_kind : forall op x y r,
-  num_op op x y = Ok r ->
-  nk r = match op with
-         | OpQuo => KFloat
-         | _ => match nk x, nk y with KInt, KInt => KInt | _, _ => KFloat end
-         end.
-Proof. exact num_op_kind. Qed.
-Print Assumptions C06_result_kind.
-
-Theorem C06_arith_error_iff_zero_divisor : forall op x y,
-  num_op op x y = Err <-> (op = OpQuo /\ coeff (nd y) = 0%N).
-Proof. exact num_op_total. Qed.
-Print Assumptions C06_arith_error_iff_zero_divisor.
+Theorem C06_result_kind_and_errors : forall op x y,
+  (forall r, num_op op x y = Ok r ->
+     nk r = match op with
+            | OpQuo => KFloat
+            | _ => match nk x, nk y with KInt, KInt => KInt | _, _ => KFloat end
+            end) /\
+  (num_op op x y = Err <-> (op = OpQuo /\ coeff (nd y) = 0%N)).
+Proof. exact (fun op x y => conj (num_op_kind op x y) (num_op_total op x y)). Qed.
+Print Assumptions C06_result_kind_and_errors.
 
 (* ------------------------------------------------------------------ *)
 (* / : correctly rounded to 34 significant digits                      *)
@@ -223,43 +176,24 @@ Theorem C06_quo_correctly_rounded : forall x y,
 Proof. exact dquo_correctly_rounded. Qed.
 Print Assumptions C06_quo_correctly_rounded.
 
-Theorem C06_quo_sign : forall x y, coeff x <> 0%N -> coeff y <> 0%N ->
-  neg (dquo x y) = xorb (neg x) (neg y).
-Proof. exact dquo_sign. Qed.
-Print Assumptions C06_quo_sign.
-
-Theorem C06_reduce_keeping_floats_value : forall x, dval (reduce_keeping_floats x) == dval x.
-Proof. exact reduce_keeping_floats_val. Qed.
-Print Assumptions C06_reduce_keeping_floats_value.
-
-Theorem C06_quo_zero_divisor_error : forall x y, coeff (nd y) = 0%N -> num_op OpQuo x y = Err.
-Proof. exact num_quo_zero_divisor. Qed.
-Print Assumptions C06_quo_zero_divisor_error.
-
-Example C06_quo_examples :
-  num_op OpQuo (i_ 1) (i_ 3) = Ok (f_ 3333333333333333333333333333333333 (-34)) /\
-  num_op OpQuo (i_ 2) (i_ 3) = Ok (f_ 6666666666666666666666666666666667 (-34)) /\
-  num_op OpQuo (i_ 6) (i_ 2) = Ok (f_ 30 (-1)) /\
-  num_op OpQuo (i_ 1) (i_ 0) = Err.
-Proof. exact (conj ex_third (conj ex_two_thirds (conj ex_six_two ex_div_zero))). Qed.
-Print Assumptions C06_quo_examples.
+Theorem C06_quo_sign_and_reduce : forall x y,
+  (coeff x <> 0%N -> coeff y <> 0%N -> neg (dquo x y) = xorb (neg x) (neg y)) /\
+  dval (reduce_keeping_floats x) == dval x.
+Proof. exact (fun x y => conj (dquo_sign x y) (reduce_keeping_floats_val x)). Qed.
+Print Assumptions C06_quo_sign_and_reduce.
 
 (* ------------------------------------------------------------------ *)
 (* comparison                                                          *)
 
-(* Decimal.Cmp is the order of the denoted rationals *)
+(* Decimal.Cmp is the order of the denoted rationals, hence a total preorder on
+   representations (a total order on values) *)
 Theorem C06_cmp_spec : forall d x, dcmp d x = (dval d ?= dval x).
 Proof. exact dcmp_spec. Qed.
 Print Assumptions C06_cmp_spec.
 
-(* hence a total preorder on representations (total order on values) *)
-Theorem C06_cmp_total_order : total_pre dcmp.
-Proof. exact dcmp_total_pre. Qed.
+Theorem C06_cmp_total_order : total_pre dcmp /\ (forall d x, dcmp d x = Eq <-> dval d == dval x).
+Proof. exact (conj dcmp_total_pre dcmp_eq_iff). Qed.
 Print Assumptions C06_cmp_total_order.
-
-Theorem C06_cmp_eq_iff_same_value : forall d x, dcmp d x = Eq <-> dval d == dval x.
-Proof. exact dcmp_eq_iff. Qed.
-Print Assumptions C06_cmp_eq_iff_same_value.
 
 (* the six operators on two numbers, int or float alike *)
 Theorem C06_comparison_operators : forall x y,
@@ -272,34 +206,23 @@ Theorem C06_comparison_operators : forall x y,
 Proof. exact num_cmp_spec. Qed.
 Print Assumptions C06_comparison_operators.
 
-Theorem C06_comparison_operators_consistent : forall r,
-  cmp_to_bool CNe r = negb (cmp_to_bool CEq r) /\
-  cmp_to_bool CGe r = negb (cmp_to_bool CLt r) /\
-  cmp_to_bool CLe r = negb (cmp_to_bool CGt r) /\
-  cmp_to_bool CLe r = (cmp_to_bool CLt r || cmp_to_bool CEq r)%bool /\
-  (cmp_to_bool CLt r = true <-> r = Lt) /\
-  (cmp_to_bool CEq r = true <-> r = Eq) /\
-  (cmp_to_bool CGt r = true <-> r = Gt).
-Proof. exact cmp_ops_consistent. Qed.
-Print Assumptions C06_comparison_operators_consistent.
-
-(* strings.Compare / bytes.Compare: a total order on byte strings *)
-Theorem C06_bytes_cmp_total_order : total_cmp bytes_cmp.
-Proof. exact bytes_cmp_total. Qed.
+(* strings.Compare / bytes.Compare: a total order on byte strings; the six operators are the
+   six relations of one three-way comparison *)
+Theorem C06_bytes_cmp_total_order :
+  total_cmp bytes_cmp /\
+  forall r,
+    cmp_to_bool CNe r = negb (cmp_to_bool CEq r) /\
+    cmp_to_bool CGe r = negb (cmp_to_bool CLt r) /\
+    cmp_to_bool CLe r = negb (cmp_to_bool CGt r) /\
+    cmp_to_bool CLe r = (cmp_to_bool CLt r || cmp_to_bool CEq r)%bool /\
+    (cmp_to_bool CLt r = true <-> r = Lt) /\
+    (cmp_to_bool CEq r = true <-> r = Eq) /\
+    (cmp_to_bool CGt r = true <-> r = Gt).
+Proof. exact (conj bytes_cmp_total cmp_ops_consistent). Qed.
 Print Assumptions C06_bytes_cmp_total_order.
-
-Example C06_cmp_examples :
-  num_cmp CEq (i_ 1) (f_ 1000 (-3)) = true /\ num_cmp CLt (f_ 999 (-3)) (i_ 1) = true /\
-  num_cmp CGt (i_ (10 ^ 40)) (f_ 9 39) = true /\ num_cmp CLe (ni_ 1) (f_ 0 5) = true.
-Proof. exact ex_cmp. Qed.
-Print Assumptions C06_cmp_examples.
 
 (* ------------------------------------------------------------------ *)
 (* div mod quo rem (ival d = the integer an int-kinded decimal denotes) *)
-
-Theorem C06_int_value : forall d, (0 <= exp d)%Z -> dval d == inject_Z (ival d).
-Proof. exact ival_dval. Qed.
-Print Assumptions C06_int_value.
 
 Theorem C06_div_mod_euclid : forall a b,
   nk a = KInt -> nk b = KInt -> (0 <= exp (nd a))%Z -> (0 <= exp (nd b))%Z -> ival (nd b) <> 0%Z ->
@@ -321,17 +244,8 @@ Theorem C06_quo_rem_trunc : forall a b,
 Proof. exact quo_rem_trunc. Qed.
 Print Assumptions C06_quo_rem_trunc.
 
-Theorem C06_int_div_zero_error : forall f a b,
-  nk a = KInt -> nk b = KInt -> (0 <= exp (nd a))%Z -> (0 <= exp (nd b))%Z -> ival (nd b) = 0%Z ->
-  int_div_op f a b = Err.
-Proof. exact int_div_zero_error. Qed.
-Print Assumptions C06_int_div_zero_error.
-
-Theorem C06_int_div_needs_ints : forall f a b, (nk a = KFloat \/ nk b = KFloat) -> int_div_op f a b = Err.
-Proof. exact int_div_kind_error. Qed.
-Print Assumptions C06_int_div_needs_ints.
-
-(* exact at any size: the result IS big.Int's, whatever the magnitudes and representation *)
+(* zero divisor = error; exact at any size: the result IS big.Int's, whatever the magnitudes
+   and the representation (an int may carry a positive exponent after F1) *)
 Theorem C06_int_div_exact_any_size : forall f a b,
   nk a = KInt -> nk b = KInt -> (0 <= exp (nd a))%Z -> (0 <= exp (nd b))%Z ->
   (ival (nd b) = 0%Z -> int_div_op f a b = Err) /\
@@ -341,44 +255,89 @@ Theorem C06_int_div_exact_any_size : forall f a b,
 Proof. exact int_div_op_spec. Qed.
 Print Assumptions C06_int_div_exact_any_size.
 
-(* the Euclidean pair is unique, so div/mod are the functions of the specification *)
-Theorem C06_euclid_unique : forall x y q m q' m',
-  (x = y * q + m -> 0 <= m < Z.abs y -> x = y * q' + m' -> 0 <= m' < Z.abs y -> q = q' /\ m = m')%Z.
-Proof. exact euclid_unique. Qed.
-Print Assumptions C06_euclid_unique.
-
-Example C06_div_mod_tables :
-  map (fun '(x, y) => (int_div_op FDiv x y, int_div_op FMod x y))
-      [(i_ 5, i_ 3); (ni_ 5, i_ 3); (i_ 5, ni_ 3); (ni_ 5, ni_ 3)]
-  = [(Ok (i_ 1), Ok (i_ 2)); (Ok (ni_ 2), Ok (i_ 1)); (Ok (ni_ 1), Ok (i_ 2)); (Ok (i_ 2), Ok (i_ 1))] /\
-  map (fun '(x, y) => (int_div_op FQuo x y, int_div_op FRem x y))
-      [(i_ 5, i_ 3); (ni_ 5, i_ 3); (i_ 5, ni_ 3); (ni_ 5, ni_ 3)]
-  = [(Ok (i_ 1), Ok (i_ 2)); (Ok (ni_ 1), Ok (ni_ 2)); (Ok (ni_ 1), Ok (i_ 2)); (Ok (i_ 1), Ok (ni_ 2))].
-Proof. exact (conj ex_divmod ex_quorem). Qed.
-Print Assumptions C06_div_mod_tables.
-
-Example C06_int_div_big_examples :
-  int_div_op FDiv (i_ (10 ^ 40)) (i_ 7) = Ok (i_ (10 ^ 40 / 7)) /\
-  int_div_op FDiv (mkNum KInt (mkDec false (10 ^ 33) 3)) (i_ 7) = Ok (i_ (10 ^ 36 / 7)).
-Proof. exact (conj ex_div_big ex_div_rounded). Qed.
-Print Assumptions C06_int_div_big_examples.
+(* ival is the denoted integer; the Euclidean pair is unique (so div/mod are the functions of
+   the specification); float arguments are rejected *)
+Theorem C06_int_div_aux :
+  (forall d, (0 <= exp d)%Z -> dval d == inject_Z (ival d)) /\
+  (forall x y q m q' m',
+     (x = y * q + m -> 0 <= m < Z.abs y -> x = y * q' + m' -> 0 <= m' < Z.abs y -> q = q' /\ m = m')%Z) /\
+  (forall f a b, (nk a = KFloat \/ nk b = KFloat) -> int_div_op f a b = Err).
+Proof. exact (conj ival_dval (conj euclid_unique int_div_kind_error)). Qed.
+Print Assumptions C06_int_div_aux.
 
 (* ------------------------------------------------------------------ *)
-(* RoundToIntegralExact (used by multiplier literals)                  *)
+(* RoundToIntegralExact (used by multiplier literals and intDivOp)      *)
 
-Theorem C06_to_integral_of_int : forall x, (0 <= exp x)%Z ->
-  to_integral_flag x = (mkDec (neg x) (coeff x * pow10 (Z.to_N (exp x))) 0, false).
-Proof. exact to_integral_nonneg_exp. Qed.
-Print Assumptions C06_to_integral_of_int.
+Theorem C06_to_integral : forall x,
+  ((0 <= exp x)%Z ->
+     to_integral_flag x = (mkDec (neg x) (coeff x * pow10 (Z.to_N (exp x))) 0, false)) /\
+  ((exp x < 0)%Z ->
+     let e := pow10 (Z.to_N (- exp x)) in
+     let c := coeff x in
+     to_integral_flag x =
+       (mkDec (neg x) (if (2 * (c mod e) <? e)%N then (c / e)%N else (c / e + 1)%N) 0,
+        negb (c mod e =? 0)%N)).
+Proof. exact (fun x => conj (to_integral_nonneg_exp x) (to_integral_neg_exp x)). Qed.
+Print Assumptions C06_to_integral.
 
-Theorem C06_to_integral_of_fraction : forall x, (exp x < 0)%Z ->
-  let e := pow10 (Z.to_N (- exp x)) in
-  let c := coeff x in
-  to_integral_flag x =
-    (mkDec (neg x) (if (2 * (c mod e) <? e)%N then (c / e)%N else (c / e + 1)%N) 0,
-     negb (c mod e =? 0)%N).
-Proof. exact to_integral_neg_exp. Qed.
-Print Assumptions C06_to_integral_of_fraction.
+(* ------------------------------------------------------------------ *)
+(* literals: every spelling of the grammar (lit_ok l) is read with the value it denotes *)
+
+Theorem C06_literal_decimal_and_based : forall d p,
+  (lit_ok (GDec d) = true ->
+     lit_parse (render (GDec d)) = LNum (mkNum KInt (mkDec false (chars_value 10 (ds_chars d)) 0))) /\
+  (lit_ok (GBased p d) = true ->
+     lit_parse (render (GBased p d)) =
+       LNum (mkNum KInt (mkDec false (chars_value (prefix_base p) (ds_chars d)) 0))).
+Proof. exact (fun d p => conj (lit_dec_value d) (lit_based_value p d)). Qed.
+Print Assumptions C06_literal_decimal_and_based.
+
+(* float_lit = digits * 10^(exponent - #fraction digits), kind float, while the exponent stays
+   inside apd's range (outside: finding F9) *)
+Theorem C06_literal_float_value : forall ip fp e,
+  lit_ok (GFloat ip fp e) = true ->
+  exp_in_range (chars_value 10 (opt_chars ip ++ fp_chars fp)) (expo_value e) (length (fp_chars fp)) ->
+  lit_parse (render (GFloat ip fp e)) =
+    LNum (mkNum KFloat (mantissa ip (fp_flat fp) (expo_value e))).
+Proof. exact lit_float_value. Qed.
+Print Assumptions C06_literal_float_value.
+
+(* si_lit: the product at precision 34, then RoundToIntegralExact (implementation-faithful) *)
+Theorem C06_literal_si_value : forall ip fp m,
+  lit_ok (GSi ip fp m) = true -> si_no_leading_zero ip fp = true ->
+  exp_in_range (chars_value 10 (opt_chars ip ++ opt_chars fp)) 0 (length (opt_chars fp)) ->
+  lit_parse (render (GSi ip fp m)) =
+    match to_integral_flag (dmul (mantissa ip fp 0) (mkDec false (mult_value m) 0)) with
+    | (r, false) => LNum (mkNum KInt r)
+    | (_, true) => LErr
+    end.
+Proof. exact lit_si_value. Qed.
+Print Assumptions C06_literal_si_value.
+
+(* ... which is the exact product - or an error exactly when that is not an integer -
+   whenever the exact product has at most 34 digits (beyond: finding F5) *)
+Theorem C06_mult_literal_exact_when : forall ip fp m,
+  lit_ok (GSi ip fp m) = true -> si_no_leading_zero ip fp = true ->
+  exp_in_range (chars_value 10 (opt_chars ip ++ opt_chars fp)) 0 (length (opt_chars fp)) ->
+  let P := mul_exact (mantissa ip fp 0) (mkDec false (mult_value m) 0) in
+  (digits (coeff P) <= 34)%N ->
+  match lit_parse (render (GSi ip fp m)) with
+  | LNum n => nk n = KInt /\ exp (nd n) = 0%Z /\ dval (nd n) == dval P
+  | LErr => ~ exists z : Z, dval P == inject_Z z
+  | LNaN _ => False
+  end.
+Proof. exact mult_literal_exact_when. Qed.
+Print Assumptions C06_mult_literal_exact_when.
+
+(* kind int iff not a float_lit; base; every spelling is accepted by the scanner *)
+Theorem C06_literal_kind_int_iff : forall l,
+  lit_ok l = true ->
+  match l with GSi ip fp _ => si_no_leading_zero ip fp = true | _ => True end ->
+  exists i, parse_num_noerr (render l) = Some i /\
+            i_float i = (match l with GFloat _ _ _ => true | _ => false end) /\
+            i_base i = (match l with GBased p _ => prefix_base p | _ => 10%N end).
+Proof. exact literal_kind. Qed.
+Print Assumptions C06_literal_kind_int_iff.
 
 (* ------------------------------------------------------------------ *)
 (* literals: deviations from the specified value (witnesses)           *)
@@ -409,16 +368,64 @@ Theorem C06_literal_exponent_range_refuted :
 Proof. exact literal_exponent_range_refuted. Qed.
 Print Assumptions C06_literal_exponent_range_refuted.
 
-Example C06_literal_examples :
-  lit_parse [49; 46; 53; 71]%N = LNum (i_ 1500000000) /\
-  lit_parse [48; 120; 66; 97; 100; 95; 70; 97; 99; 101]%N = LNum (i_ 195951310) /\
-  lit_parse [48; 55; 50; 46; 52; 48]%N = LNum (f_ 7240 (-2)) /\
-  lit_parse [46; 49; 50; 51; 52; 53; 69; 43; 53]%N = LNum (f_ 12345 0).
-Proof. exact (conj ex_lit_si (conj ex_lit_hex (conj ex_lit_float ex_lit_exp))). Qed.
-Print Assumptions C06_literal_examples.
+(* ------------------------------------------------------------------ *)
+(* non-vacuity: concrete evaluations of the models (all by computation) *)
 
-Example C06_literal_error_examples :
+Example C06_arith_examples :
+  (* F1 and a sum that fits *)
+  (num_op OpAdd (i_ (10 ^ 36)) (i_ 1) = Ok (mkNum KInt (mkDec false (10 ^ 33) 3)) /\
+   num_op OpAdd (i_ (10 ^ 33)) (i_ 1) = Ok (i_ (10 ^ 33 + 1))) /\
+  (* a tie at digit 35 goes away from zero; 99..9|5 rolls over *)
+  (dadd (mkDec false (10 ^ 34 + 5) 0) (mkDec false 0 0) = mkDec false (10 ^ 33 + 1) 1 /\
+   dmul (mkDec false (10 ^ 35 - 5) 0) (mkDec false 1 0) = mkDec false (10 ^ 33) 2) /\
+  (* quotients *)
+  (num_op OpQuo (i_ 1) (i_ 3) = Ok (f_ 3333333333333333333333333333333333 (-34)) /\
+   num_op OpQuo (i_ 2) (i_ 3) = Ok (f_ 6666666666666666666666666666666667 (-34)) /\
+   num_op OpQuo (i_ 6) (i_ 2) = Ok (f_ 30 (-1)) /\
+   num_op OpQuo (i_ 1) (i_ 0) = Err) /\
+  (* comparisons across kinds and representations *)
+  (num_cmp CEq (i_ 1) (f_ 1000 (-3)) = true /\ num_cmp CLt (f_ 999 (-3)) (i_ 1) = true /\
+   num_cmp CGt (i_ (10 ^ 40)) (f_ 9 39) = true /\ num_cmp CLe (ni_ 1) (f_ 0 5) = true).
+Proof.
+  exact (conj (conj ex_f1 ex_add_fits) (conj (conj ex_tie ex_rollover)
+        (conj (conj ex_third (conj ex_two_thirds (conj ex_six_two ex_div_zero))) ex_cmp))).
+Qed.
+Print Assumptions C06_arith_examples.
+
+(* the tables of doc/ref/spec.md, and big operands *)
+Example C06_int_div_examples :
+  (map (fun '(x, y) => (int_div_op FDiv x y, int_div_op FMod x y))
+       [(i_ 5, i_ 3); (ni_ 5, i_ 3); (i_ 5, ni_ 3); (ni_ 5, ni_ 3)]
+   = [(Ok (i_ 1), Ok (i_ 2)); (Ok (ni_ 2), Ok (i_ 1)); (Ok (ni_ 1), Ok (i_ 2)); (Ok (i_ 2), Ok (i_ 1))] /\
+   map (fun '(x, y) => (int_div_op FQuo x y, int_div_op FRem x y))
+       [(i_ 5, i_ 3); (ni_ 5, i_ 3); (i_ 5, ni_ 3); (ni_ 5, ni_ 3)]
+   = [(Ok (i_ 1), Ok (i_ 2)); (Ok (ni_ 1), Ok (ni_ 2)); (Ok (ni_ 1), Ok (i_ 2)); (Ok (i_ 1), Ok (ni_ 2))]) /\
+  (int_div_op FDiv (i_ (10 ^ 40)) (i_ 7) = Ok (i_ (10 ^ 40 / 7)) /\
+   int_div_op FDiv (mkNum KInt (mkDec false (10 ^ 33) 3)) (i_ 7) = Ok (i_ (10 ^ 36 / 7))).
+Proof. exact (conj (conj ex_divmod ex_quorem) (conj ex_div_big ex_div_rounded)). Qed.
+Print Assumptions C06_int_div_examples.
+
+Example C06_literal_examples :
+  (* 1.5G  0xBad_Face  072.40  .12345E+5 *)
+  (lit_parse [49; 46; 53; 71]%N = LNum (i_ 1500000000) /\
+   lit_parse [48; 120; 66; 97; 100; 95; 70; 97; 99; 101]%N = LNum (i_ 195951310) /\
+   lit_parse [48; 55; 50; 46; 52; 48]%N = LNum (f_ 7240 (-2)) /\
+   lit_parse [46; 49; 50; 51; 52; 53; 69; 43; 53]%N = LNum (f_ 12345 0)) /\
+  (* 1__0  0x  1e  01  1A  ""  1<NUL> *)
   map lit_parse [[49; 95; 95; 48]; [48; 120]; [49; 101]; [48; 49]; [49; 65]; []; [49; 0]]%N =
-  [LErr; LErr; LErr; LErr; LErr; LErr; LErr].
-Proof. exact ex_lit_errors. Qed.
-Print Assumptions C06_literal_error_examples.
+  [LErr; LErr; LErr; LErr; LErr; LErr; LErr] /\
+  (* members of the grammar: the hypotheses of the literal theorems are satisfiable *)
+  (render g_float = [48; 55; 50; 46; 52; 48]%N /\ lit_ok g_float = true) /\
+  (render g_float2 = [49; 95; 48; 46; 53; 101; 45; 51]%N /\ lit_ok g_float2 = true /\
+     lit_parse (render g_float2) = LNum (f_ 105 (-4))) /\
+  (render g_si = [49; 46; 53; 71]%N /\ lit_ok g_si = true) /\
+  (render g_si0 = [48; 75; 105]%N /\ lit_ok g_si0 = true /\ lit_parse (render g_si0) = LNum (i_ 0)) /\
+  (render g_hex = [48; 120; 66; 97; 100; 95; 70; 97; 99; 101]%N /\ lit_ok g_hex = true) /\
+  (render g_dec = [49; 55; 48; 95; 49; 52; 49]%N /\ lit_ok g_dec = true /\
+     lit_parse (render g_dec) = LNum (i_ 170141)).
+Proof.
+  exact (conj (conj ex_lit_si (conj ex_lit_hex (conj ex_lit_float ex_lit_exp)))
+        (conj ex_lit_errors
+        (conj ex_g_float (conj ex_g_float2 (conj ex_g_si (conj ex_g_si0 (conj ex_g_hex ex_g_dec))))))).
+Qed.
+Print Assumptions C06_literal_examples.
